@@ -108,8 +108,8 @@ def lex_line(line, lineno, triple_mode=False):
     return out
 
 
-def split_lines(s):
-    """Only LF, CRLF, CR end a line."""
+def split_lines(s, keepends=False):
+    """Only LF, CRLF, CR end a line (keepends: each line keeps the terminator that ended it)."""
     lines = []
     start = 0
     while True:
@@ -123,7 +123,7 @@ def split_lines(s):
         else:
             k = b
             nxt = b + 2 if s.startswith('\n', b + 1) else b + 1
-        lines.append(s[start:k])
+        lines.append(s[start:nxt] if keepends else s[start:k])
         start = nxt
 
 
